@@ -26,6 +26,14 @@
 (* matching message after its registration.  (Called/IterateLive transcribe    *)
 (* the dispatch loop of Event.notify; DispatchReachesAll is the law.)          *)
 (*                                                                         *)
+(* De-duplication memory: the endpoint remembers the last Window distinct    *)
+(* reliable packet IDs (seen: a queue, oldest first; a new ID pushes the       *)
+(* oldest out when it is full).  A duplicate of a remembered ID is never       *)
+(* dispatched again.  What happens to a duplicate of an ID that has been       *)
+(* pushed out is LEFT OPEN (parameter redeliver of Recv, bound to what was     *)
+(* observed): it may be dispatched again -- it then re-enters the memory as    *)
+(* the newest -- or an endpoint with a longer memory may suppress it.          *)
+(*                                                                         *)
 (* Layers: pend/seen are the mechanism (unacked table with tries/age,        *)
 (* dedupe memory); rR..dU, ackedSince, xmits, relIssued, ids are ghost       *)
 (* history variables in which the invariants restate the property.           *)
@@ -34,9 +42,11 @@ EXTENDS Integers, Sequences, FiniteSets, TLC
 
 CONSTANTS Budget,      \* transmissions allowed for one reliable send (code: tries_left = 10)
           Every,       \* resend period in clock units (code: resend_every = 3.0 s; unit = ms)
+          Window,      \* size of the de-duplication memory (code: Circuit.seen_reliable.maxlen = 1000)
           IterateLive  \* FALSE: dispatch walks a snapshot of the subscriber list (the code); TRUE: the live list
 
-VARIABLES seen,        \* inbound reliable packet IDs received at least once
+VARIABLES seen,        \* de-duplication memory: the last <= Window distinct inbound reliable packet IDs, oldest first
+          evN,         \* ghost, per inbound reliable pid: how often it was pushed out of the memory
           rR, aR, dR,  \* ghost, per inbound reliable pid: receipts, acks emitted, deliveries per subscriber
           rU, dU,      \* ghost, per inbound unreliable pid: receipts, deliveries per subscriber
           pend,        \* set of [id, tries, age]: reliable sends awaiting an acknowledgement
@@ -50,17 +60,23 @@ VARIABLES seen,        \* inbound reliable packet IDs received at least once
           subs,        \* per level: the subscribers registered after the permanent one, <<[k |-> kind, live |-> BOOLEAN]..>>
           out          \* observable output of the last step
 
-vars == <<seen, rR, aR, dR, rU, dU, pend, done, failed, relIssued, ackedSince, xmits, ids, lastId, subs, out>>
-core == <<seen, rR, aR, dR, rU, dU, pend, done, failed, relIssued, ackedSince, xmits, ids, lastId, subs>>
+vars == <<seen, evN, rR, aR, dR, rU, dU, pend, done, failed, relIssued, ackedSince, xmits, ids, lastId, subs, out>>
+core == <<seen, evN, rR, aR, dR, rU, dU, pend, done, failed, relIssued, ackedSince, xmits, ids, lastId, subs>>
 
 Get(f, k) == IF k \in DOMAIN f THEN f[k] ELSE 0
 Inc(f, k, n) == [x \in DOMAIN f \cup {k} |-> IF x = k THEN Get(f, k) + n ELSE f[x]]
 PendIds == {e.id : e \in pend}
+Range(q) == {q[i] : i \in DOMAIN q}
+Remembered(p) == p \in Range(seen)
+EverSeen(p) == p \in DOMAIN rR
+\* p becomes the newest remembered ID; the oldest one falls out of a full memory
+Admit(q, p) == IF Len(q) >= Window THEN Append(Tail(q), p) ELSE Append(q, p)
+Evicts(q) == IF Len(q) >= Window THEN {Head(q)} ELSE {}
 Xm(id) == (CHOOSE x \in xmits : x[1] = id)[2]
 Levels == {"sess", "reg"}
 Kinds == {"perm", "once", "retTrue", "waitfor"}      \* all but "perm" remove themselves when they are called
 NoCalls == [l \in Levels |-> [i \in 1..Len(subs[l]) |-> 0]]
-NoOut == [acks |-> <<>>, deliver |-> FALSE, tx |-> {}, completed |-> {}, failed |-> {}, calls |-> NoCalls]
+NoOut == [acks |-> <<>>, deliver |-> FALSE, open |-> FALSE, tx |-> {}, completed |-> {}, failed |-> {}, calls |-> NoCalls]
 
 \* --- the dispatch loop (Event.notify) over the live extra subscribers of one level ---
 \* positions (in subs[l]) of the subscribers that are called when one message is dispatched
@@ -83,7 +99,7 @@ Dispatch(deliver, match) ==
 CallsOf(deliver, match) == [l \in Levels |-> [i \in 1..Len(subs[l]) |->
                                IF deliver /\ match /\ i \in MustCall(subs[l]) THEN 1 ELSE 0]]
 
-Init == /\ seen = {} /\ rR = <<>> /\ aR = <<>> /\ dR = <<>> /\ rU = <<>> /\ dU = <<>>
+Init == /\ seen = <<>> /\ evN = <<>> /\ rR = <<>> /\ aR = <<>> /\ dR = <<>> /\ rU = <<>> /\ dU = <<>>
         /\ pend = {} /\ done = {} /\ failed = {} /\ relIssued = {} /\ ackedSince = {} /\ xmits = {}
         /\ ids = <<>> /\ lastId = -1 /\ subs = [l \in Levels |-> <<>>] /\ out = NoOut
 
@@ -91,8 +107,11 @@ Init == /\ seen = {} /\ rR = <<>> /\ aR = <<>> /\ dR = <<>> /\ rU = <<>> /\ dU =
 (* acknowledged IDs (in whichever form).  aid = the packet ID the endpoint gives to the     *)
 (* acknowledgement it emits (only meaningful when rel).  match = the message has the name    *)
 (* the extra subscribers subscribed to (the permanent by-name ones take both names used).    *)
-Recv(p, rel, acks, aid, match) ==
-    LET hit == acks \cap PendIds IN
+(* redeliver = what the endpoint does with a duplicate of an ID it no longer has to remember. *)
+Recv(p, rel, acks, aid, match, redeliver) ==
+    LET hit == acks \cap PendIds
+        forgotten == EverSeen(p) /\ ~Remembered(p)               \* pushed out of the memory: open
+        deliver == ~EverSeen(p) \/ (forgotten /\ redeliver) IN
     /\ pend' = {e \in pend : e.id \notin hit}
     /\ done' = done \cup hit
     /\ ackedSince' = ackedSince \cup hit
@@ -100,22 +119,23 @@ Recv(p, rel, acks, aid, match) ==
     /\ IF rel
        THEN /\ aid > lastId
             /\ lastId' = aid /\ ids' = Append(ids, aid)
-            /\ seen' = seen \cup {p}
+            /\ seen' = IF deliver THEN Admit(seen, p) ELSE seen
+            /\ evN' = IF deliver /\ Evicts(seen) # {} THEN Inc(evN, Head(seen), 1) ELSE evN
             /\ rR' = Inc(rR, p, 1) /\ aR' = Inc(aR, p, 1)
-            /\ dR' = Inc(dR, p, IF p \in seen THEN 0 ELSE 1)
+            /\ dR' = Inc(dR, p, IF deliver THEN 1 ELSE 0)
             /\ UNCHANGED <<rU, dU>>
-            /\ Dispatch(p \notin seen, match)
-            /\ out' = [acks |-> <<p>>, deliver |-> p \notin seen, tx |-> {}, completed |-> hit, failed |-> {},
-                       calls |-> CallsOf(p \notin seen, match)]
+            /\ Dispatch(deliver, match)
+            /\ out' = [acks |-> <<p>>, deliver |-> deliver, open |-> forgotten, tx |-> {}, completed |-> hit, failed |-> {},
+                       calls |-> CallsOf(deliver, match)]
        ELSE /\ rU' = Inc(rU, p, 1) /\ dU' = Inc(dU, p, 1)
-            /\ UNCHANGED <<seen, rR, aR, dR, lastId, ids>>
+            /\ UNCHANGED <<seen, evN, rR, aR, dR, lastId, ids>>
             /\ Dispatch(TRUE, match)
-            /\ out' = [acks |-> <<>>, deliver |-> TRUE, tx |-> {}, completed |-> hit, failed |-> {}, calls |-> CallsOf(TRUE, match)]
+            /\ out' = [acks |-> <<>>, deliver |-> TRUE, open |-> FALSE, tx |-> {}, completed |-> hit, failed |-> {}, calls |-> CallsOf(TRUE, match)]
 
 (* A further subscriber of kind k is registered at level l (after everything registered there before). *)
 Subscribe(l, k) ==
     /\ subs' = [subs EXCEPT ![l] = Append(@, [k |-> k, live |-> TRUE])]
-    /\ UNCHANGED <<seen, rR, aR, dR, rU, dU, pend, done, failed, relIssued, ackedSince, xmits, ids, lastId>>
+    /\ UNCHANGED <<seen, evN, rR, aR, dR, rU, dU, pend, done, failed, relIssued, ackedSince, xmits, ids, lastId>>
     /\ out' = [NoOut EXCEPT !.calls = [ll \in Levels |-> [i \in 1..Len(subs'[ll]) |-> 0]]]
 
 (* A datagram from an address that is not the peer's: whatever it carries, nothing happens. *)
@@ -128,14 +148,14 @@ SendRel(id) ==
     /\ pend' = pend \cup {[id |-> id, tries |-> Budget, age |-> 0]}
     /\ relIssued' = relIssued \cup {id}
     /\ xmits' = xmits \cup {<<id, 1>>}
-    /\ UNCHANGED <<seen, rR, aR, dR, rU, dU, done, failed, ackedSince, subs>>
+    /\ UNCHANGED <<seen, evN, rR, aR, dR, rU, dU, done, failed, ackedSince, subs>>
     /\ out' = [NoOut EXCEPT !.tx = {[id |-> id, rel |-> TRUE, resent |-> FALSE]}]
 
 (* send() of an unreliable message: takes an ID, nothing to track.                          *)
 SendUnrel(id) ==
     /\ id > lastId
     /\ lastId' = id /\ ids' = Append(ids, id)
-    /\ UNCHANGED <<seen, rR, aR, dR, rU, dU, pend, done, failed, relIssued, ackedSince, xmits, subs>>
+    /\ UNCHANGED <<seen, evN, rR, aR, dR, rU, dU, pend, done, failed, relIssued, ackedSince, xmits, subs>>
     /\ out' = [NoOut EXCEPT !.tx = {[id |-> id, rel |-> FALSE, resent |-> FALSE]}]
 
 (* The clock advances by d and the resend pass runs: every pending send whose last          *)
@@ -150,7 +170,7 @@ Tick(d) ==
                \cup {[id |-> e.id, tries |-> e.tries - 1, age |-> 0] : e \in again}
     /\ failed' = failed \cup {e.id : e \in dead}
     /\ xmits' = {IF x[1] \in {e.id : e \in again} THEN <<x[1], x[2] + 1>> ELSE x : x \in xmits}
-    /\ UNCHANGED <<seen, rR, aR, dR, rU, dU, done, relIssued, ackedSince, ids, lastId, subs>>
+    /\ UNCHANGED <<seen, evN, rR, aR, dR, rU, dU, done, relIssued, ackedSince, ids, lastId, subs>>
     /\ out' = [NoOut EXCEPT !.tx = {[id |-> e.id, rel |-> TRUE, resent |-> TRUE] : e \in again},
                             !.failed = {e.id : e \in dead}]
 
@@ -161,8 +181,15 @@ TypeOK == /\ \A e \in pend : e.tries \in 1..Budget /\ e.age \in 0..(Every - 1)
 \* every reliable packet is acknowledged every time it is received
 AckEveryReceipt == \A p \in DOMAIN rR : aR[p] = rR[p]
 \* ... but its message reaches each subscriber at most once (and the first copy does)
-DispatchAtMostOnce == \A p \in DOMAIN rR : dR[p] <= 1
-FirstCopyDispatched == \A p \in DOMAIN rR : rR[p] >= 1 => dR[p] = 1
+\* (a packet can only be dispatched again after it was pushed out of the memory, once per push-out at most)
+DispatchAtMostOnce == \A p \in DOMAIN rR : dR[p] <= 1 + Get(evN, p) /\ (Remembered(p) => dR[p] >= 1)
+FirstCopyDispatched == \A p \in DOMAIN rR : rR[p] >= 1 => dR[p] >= 1
+\* the memory holds the newest Window distinct IDs, each once
+MemoryShape == /\ Len(seen) <= Window /\ Range(seen) \subseteq DOMAIN rR
+               /\ \A i, j \in DOMAIN seen : seen[i] = seen[j] => i = j
+               /\ Cardinality(DOMAIN rR) <= Window => Range(seen) = DOMAIN rR
+\* a duplicate of a remembered ID is never dispatched again: a step that receives one delivers nothing
+RememberedNeverAgain == [][\A p \in Range(seen) : Get(rR', p) > Get(rR, p) => dR'[p] = dR[p]]_vars
 \* unreliable packets are always delivered
 UnreliableAlwaysDelivered == \A p \in DOMAIN rU : dU[p] = rU[p]
 \* the dispatch loop reaches every live subscriber whatever the others do while it runs
